@@ -29,5 +29,14 @@ u16 __verif_bswap16(u16 x); u32 __verif_bswap32(u32 x); u64 __verif_bswap64(u64 
 u32 __verif_fshl32(u32 a, u32 b, u32 c); u64 __verif_fshl64(u64 a, u64 b, u64 c);
 u32 __verif_fshr32(u32 a, u32 b, u32 c); u64 __verif_fshr64(u64 a, u64 b, u64 c);
 
+/* --- memoising multiplier/divider (ir2c --hook-arith): the implementation and the reference model share one circuit
+ *     when they multiply/divide the same operands, so equivalence is decided on the surrounding logic (DESIGN.md C08) --- */
+u32 __verif_mul32(u32 a, u32 b); u64 __verif_mul64(u64 a, u64 b);
+u32 __verif_udiv32(u32 a, u32 b); u32 __verif_urem32(u32 a, u32 b);
+u64 __verif_udiv64(u64 a, u64 b); u64 __verif_urem64(u64 a, u64 b);
+extern int __verif_memo_miss;   /* number of products/quotients that did not hit a memo slot */
+
+/* float<->double conversions with the x86 (and IEEE recommended) NaN rule: sign kept, payload truncated/extended, quiet bit set */
+float __verif_d2f(double x); double __verif_f2d(float x);
 #define __verif_bitcast(ST, DT, x) (((union { ST s; DT d; }){ .s = (x) }).d)
 #endif
